@@ -849,6 +849,90 @@ def rule_literal_fallback(ctx, rep):
     rep.floor('R-LITERAL-FALLBACK', n_paths, 8)
 
 
+# Link reference definitions (CommonMark 0.30, 4.7): one source per class of the grammar - indentation of the label,
+# the colon, destination forms, title on the same or the next line, text after the title, what ends the scan.
+# (lines, the definitions that must be stored {normalised label: (destination, title)}, lines consumed)
+DEF_ROWS = [
+    (['[foo]: /url\n'], {'foo': ('/url', '')}, 1),
+    (['   [foo]: /url\n'], {'foo': ('/url', '')}, 1),
+    (['    [foo]: /url\n'], {}, 0),                                  # four spaces: indented code, not a definition
+    (['[foo]: /url "title"\n'], {'foo': ('/url', 'title')}, 1),
+    (["[foo]: <a b> 't'\n"], {'foo': ('a b', 't')}, 1),
+    (['[foo]: <>\n'], {'foo': ('', '')}, 1),
+    (['[foo]:\n', '/url\n'], {'foo': ('/url', '')}, 2),
+    (['[foo]: /url "t\n', 'u"\n'], {'foo': ('/url', 't\nu')}, 2),
+    (['[foo]: /url\n', '"title" ok\n'], {'foo': ('/url', '')}, 1),   # an invalid title on the next line: a definition without title
+    (['[foo]: /url "title" ok\n'], {}, 0),                            # text after the title on the same line: no definition
+    (['[note]: see appendix B for details\n'], {}, 0),               # prose that starts like a definition
+    (['[foo] : /url\n'], {}, 0),
+    (['[]: /url\n'], {}, 0),
+    (['[foo]: \n'], {}, 0),
+    (['[Foo  Bar]: /u\n'], {'foo bar': ('/u', '')}, 1),
+    (['[foo]: /url\n', 'bar\n'], {'foo': ('/url', '')}, 1),
+    (['[a]: /x\n', '[b]: /y\n'], {'a': ('/x', ''), 'b': ('/y', '')}, 2),
+    (['[foo]: /url\n', '[foo]: /other\n'], {'foo': ('/url', '')}, 2),
+    (['[foo]: /url\n', '  \n', 'x\n'], {'foo': ('/url', '')}, 1),
+    (['[foo]: /url\n', '\n', '[bar]: /b\n'], {'foo': ('/url', '')}, 1),
+]
+
+
+def rule_def_rows(ctx, rep, rule='R-DEF-ROWS'):
+    """The definition reader, folded on DEF_ROWS with a fresh definitions table: what it stores and how many lines it
+    consumes must be what the grammar of the specification gives for that class of source; every match it hands over
+    has the same number of fields (the constructors of both token sets unpack them)."""
+    from .. import blockproto
+    model = ctx.model
+    rep.rule(rule, 'Footnote.read stores exactly the definitions the grammar of the specification finds and consumes their lines only (table of source classes)')
+    fn = model.cls('block_token.Footnote')
+    fw = model.cls('block_tokenizer.FileWrapper')
+    doc = model.cls('block_token.Document')
+    rd = fn.lookup('read')[1]
+    bad = []
+    arities = {}
+    n = 0
+    types = blockproto.default_block_types(ctx)
+    for lines, want, used in DEF_ROWS:
+        rep.instance(rule)
+        it = Interp(model, loop_bound=64, while_bound=64)
+        it.reset_run(Oracle())
+        it.gstate[(PKG + '.block_token', '_token_types')] = list(types)
+        root = Obj(doc, {'footnotes': {}})
+        it.gstate[(PKG + '.token', '_root_node')] = root
+        w = it.construct(fw, [list(lines)], {})
+        try:
+            r = it.call(it.getattr(fn, 'read'), [w], {})
+            pos = it.call(it.getattr(w, 'line_number'), [], {})
+            start = w.attrs.get('start_line', 1)
+            got_used = pos - start + 1 if isinstance(pos, int) and isinstance(start, int) else None
+            table = root.attrs.get('footnotes')
+            got = {k: tuple(v) if isinstance(v, (list, tuple)) else v for k, v in table.items()} if isinstance(table, dict) else repr(table)
+            for mm in (r if isinstance(r, (list, tuple)) else []):
+                if isinstance(mm, (list, tuple)):
+                    arities.setdefault(len(mm), ''.join(lines))
+        except Raised as e:
+            got, got_used = 'raises %s' % e.exc.kind, None
+        n += 1
+        ok = got == want and got_used == used
+        rep.obligation(rule, ok, {'source': lines, 'stored': got if isinstance(got, str) else {k: list(v) if isinstance(v, tuple) else repr(v) for k, v in got.items()},
+                                  'lines consumed': got_used, 'specification': [{k: list(v) for k, v in want.items()}, used]})
+        if not ok:
+            bad.append((lines, got, got_used, want, used))
+    if bad:
+        lines, got, got_used, want, used = bad[0]
+        rep.find(rule, rd.short, 'row:%s' % ''.join(lines).replace('\n', '|'),
+                 'on the source %r %s stores %r and consumes %r line(s); the grammar of the specification gives %r and %d line(s) '
+                 '(%d of %d rows differ)' % (''.join(lines), rd.short, got, got_used, want, used, len(bad), len(DEF_ROWS)),
+                 loc(model.unit_of(rd), rd.node), witness=''.join(lines))
+    ok = len(arities) <= 1
+    rep.obligation(rule, ok, {'fields per match handed over': sorted(arities)})
+    if not ok:
+        few = min(arities)
+        rep.find(rule, rd.short, 'match-arity', '%s hands over matches with %s fields (%d for the source %r): a constructor that unpacks '
+                 'the usual number raises on the shorter one' % (rd.short, sorted(arities), few, arities[few]),
+                 loc(model.unit_of(rd), rd.node), witness=arities[few])
+    rep.floor(rule, n, 18)
+
+
 def run(ctx):
     rep = ctx.report
     rule_phase(ctx, rep)
@@ -861,4 +945,5 @@ def run(ctx):
     # does not consume is handed back: otherwise text after a definition is glued into it (shared with C03 / C05)
     from . import c03
     c03.rule_def_account(ctx, rep)
+    rule_def_rows(ctx, rep)
     rep.assume('call graph over-approximates dynamic dispatch by method name; sound for unreachability claims')
